@@ -379,9 +379,29 @@ type wlConfig struct {
 // forgeries of the author fields.  w = an authorised writer's identity (the creator),
 // me = the hostile replica's own identity.  Returns the entry and its real signer.
 var c03Forgeries = []string{"honest-nonwriter", "copied-id-own-key", "copied-block-own-key", "foreign-signing-key",
-	"copied-id-and-signatures", "foreign-log-nonwriter"}
+	"copied-id-and-signatures", "foreign-log-nonwriter",
+	// the same forgeries with the identity's (unsigned) type field set to another provider's
+	// name or emptied: who wrote the entry chooses that field
+	"copied-id-own-key/ethereum", "copied-id-and-signatures/did", "copied-id-own-key/", "honest-nonwriter/ethereum"}
 
 func (h *hostile) forge(kind string, me, w int, next []cid.Cid, t int) (*entry.Entry, string, string, string, error) {
+	idType, retype := "", false
+	if i := strings.Index(kind, "/"); i >= 0 {
+		kind, idType, retype = kind[:i], kind[i+1:], true
+	}
+	e, signer, key, val, err := h.forgeBase(kind, me, w, next, t)
+	if err != nil || !retype {
+		return e, signer, key, val, err
+	}
+	f := clone(e)
+	f.Identity.Type = idType
+	if err := h.readdress(me, f); err != nil {
+		return nil, "", "", "", err
+	}
+	return f, signer, key, val, nil
+}
+
+func (h *hostile) forgeBase(kind string, me, w int, next []cid.Cid, t int) (*entry.Entry, string, string, string, error) {
 	p, key, val := h.payload("hostile")
 	logID := h.s.Addr
 	if kind == "foreign-log-nonwriter" {
@@ -426,6 +446,9 @@ func (h *hostile) forge(kind string, me, w int, next []cid.Cid, t int) (*entry.E
 }
 
 func c03Sig(kind string) string {
+	if i := strings.Index(kind, "/"); i >= 0 {
+		kind = kind[:i]
+	}
 	switch kind {
 	case "copied-id-own-key", "copied-block-own-key", "copied-id-and-signatures":
 		return "forged-identity-accepted"
